@@ -13,7 +13,7 @@ LEVEL_TEXT = ("calc_duration is compared with (end-start) mod 1440 rendered H:MM
 RULE = ("pairs (start, end) of HH:MM strings; thorough: all 2,073,600; quick: all pairs with start or end in {00:00,00:01,"
         "11:59,12:00,12:01,23:58,23:59} or |end-start| <= 1 (mod 1440) plus Hypothesis pairs. Non-trivial = end <= start "
         "(wrap or zero); distinct by (start, end).")
-ASSUMPTIONS = ["format H:MM:SS = str(timedelta) of whole minutes, hours not zero-padded, as the statement says"]
+ASSUMPTIONS = ["the result must not depend on the host zone or date: boundary rows are repeated on DST-change days of 5 other host zones (time_machine)", "format H:MM:SS = str(timedelta) of whole minutes, hours not zero-padded, as the statement says"]
 
 EDGE = [0, 1, 719, 720, 721, 1438, 1439]
 
@@ -32,35 +32,54 @@ def _calc():
     return calc_duration
 
 
-def one(rep, sub, calc, s, e):
+def one(rep, sub, calc, s, e, ctx=None):
     got = calc(hhmm(s), hhmm(e))
     if got != expected(s, e):
-        raise Violation("C14/duration-mismatch" + ("/equal" if s == e else "/wrap" if e < s else "/plain"),
-                        {"start": s, "end": e}, expected(s, e), got)
+        raise Violation("C14/duration-mismatch" + ("/equal" if s == e else "/wrap" if e < s else "/plain") + ("/host-zone" if ctx else ""),
+                        dict({"start": s, "end": e}, **({"ctx": ctx} if ctx else {})), expected(s, e), got)
+
+
+CONTEXTS = [None, ["America/New_York", 2024, 3, 10], ["Australia/Lord_Howe", 2024, 4, 7], ["Europe/London", 2024, 10, 27],
+            ["Asia/Kathmandu", 2024, 6, 1], ["America/Havana", 2024, 3, 10]]
 
 
 def body_rows(rep, case, sub="rows"):
+    # the duration of two HH:MM strings has nothing to do with the host's zone or today's date: part of the rows run
+    # on DST-change days of other host zones (virtual clock)
+    ctx = case.get("ctx")
+    if ctx:
+        from .. import vclock
+        rep.label("host-zone-not-utc")
+        with vclock.frozen(ctx[0], ctx[1], ctx[2], ctx[3], 12, 0, 0):
+            return _body_rows(rep, dict(case, ctxname=ctx[0]), sub)
+    return _body_rows(rep, case, sub)
+
+
+def _body_rows(rep, case, sub="rows"):
     calc = _calc()
     if "start" in case:
         s, e = case["start"], case["end"]
-        rep.tick(sub, key=(s, e), nontrivial=e <= s, sample={"start": hhmm(s), "end": hhmm(e)})
-        return one(rep, sub, calc, s, e)
+        rep.tick(sub, key=(s, e, case.get("ctxname")), nontrivial=e <= s, sample={"start": hhmm(s), "end": hhmm(e)})
+        return one(rep, sub, calc, s, e, case.get("ctx"))
     for s in range(case["lo"], case["hi"]):
         ends = range(1440) if case["full"] or s in EDGE else sorted(set(EDGE + [(s - 1) % 1440, s, (s + 1) % 1440]))
         for e in ends:
-            rep.tick(sub, key=(s, e), nontrivial=e <= s, sample={"start": hhmm(s), "end": hhmm(e)},
+            rep.tick(sub, key=(s, e, case.get("ctxname")), nontrivial=e <= s, sample={"start": hhmm(s), "end": hhmm(e)},
                      labels=("wrap",) if e < s else ("equal",) if e == s else ())
-            one(rep, sub, calc, s, e)
+            one(rep, sub, calc, s, e, case.get("ctx"))
 
 
 def strat_pairs():
-    return st.tuples(st.integers(0, 1439), st.integers(0, 1439)).map(lambda t: {"start": t[0], "end": t[1]})
+    return st.tuples(st.integers(0, 1439), st.integers(0, 1439), st.sampled_from(CONTEXTS)).map(
+        lambda t: dict({"start": t[0], "end": t[1]}, **({"ctx": t[2]} if t[2] else {})))
 
 
 def subchecks(tier):
     full = tier == "thorough"
     cases = lambda: [{"lo": a, "hi": a + 30, "full": full} for a in range(0, 1440, 30)]  # noqa
-    subs = [Sub("rows", body_rows, cases=cases, shards=16, exhaustive=full)]
+    zcases = lambda: [{"lo": a, "hi": a + 60, "full": False, "ctx": c} for c in CONTEXTS[1:] for a in range(0, 1440, 60)]  # noqa
+    subs = [Sub("rows", body_rows, cases=cases, shards=16, exhaustive=full),
+            Sub("rows-other-host-zones", lambda rep, case: body_rows(rep, case, "rows-other-host-zones"), cases=zcases, shards=16)]
     if not full:
         subs.append(Sub("pairs", lambda rep, case: body_rows(rep, case, "pairs"), strategy=strat_pairs, n=20000, shards=4))
     return subs
